@@ -114,7 +114,7 @@ FileWindows(lay) ==
   LET cc == [recs |-> lay.recs, files |-> lay.files, o |-> BaseO]
       lo == SetMin({RStart(cc, kk) : kk \in RecIdx(cc)})  hi == SetMax({RStart(cc, kk) + RUnits(cc, kk) - 1 : kk \in RecIdx(cc)})
   IN {<<-1, -1, FALSE>>, <<-1, -1, TRUE>>, <<lo + 1, hi - 1, FALSE>>, <<-1, hi - 1, FALSE>>}
-     \cup (IF Full THEN {<<lo + 1, -1, FALSE>>, <<lo + 1, hi - 1, TRUE>>} ELSE {})
+     \cup (IF Full /\ Len(lay.files) = 2 /\ Len(lay.recs) = 2 THEN {<<lo + 1, -1, FALSE>>, <<lo + 1, hi - 1, TRUE>>} ELSE {})
 FileCases(f) ==
   UNION {{[recs |-> lay.recs, files |-> lay.files,
            o |-> [BaseO EXCEPT !.fmt = f, !.l = l, !.rstart = w[1], !.rstop = w[2], !.rel = w[3]]] :
@@ -164,6 +164,10 @@ InvGroupReset ==
      /\ g.gll = GrpLL(c.o, g.gran, g.fmt, g.mt, Devs)
      /\ g.reccnt = (g.el0 + g.gll - 1) \div g.gll
      /\ (g.fmt \in {"INTEL16", "INTEL32"} => g.io <= g.es /\ (g.es - g.io) * Scale(c, g.gran) < 65536)
+\* ProcessGroup()/RemoveOffset(): in both walks of the file list every source argument is handled with the offset
+\* written behind ITS name, 0 if there is none - whatever the arguments before it and the walk before it left behind
+InvArgOffsets == (pc = "group" /\ k = 1 /\ "CarryOffset" \notin Devs) =>          \* a property of the case: once per case
+                   \A i \in FileIdx(c) : MeasOfs(c, i, Devs) = DeclOfs(c.files[i]) /\ ProcOfs(c, i, Devs) = DeclOfs(c.files[i])
 \* the pointwise comparison used by Verdict is the set equality of the property statement
 InvDecodeEquiv == pc = "done" /\ Representable(c, Fmt) =>
                     (DecodeMatches(c, Runs(Fmt, st.out, MulOf(c, Fmt))) <=> Decode(Fmt, st.out, MulOf(c, Fmt)) = Selected(c))
